@@ -47,6 +47,8 @@ def raman_fiber(rng, uid, length=None):
                       'propagation_direction': G.pick(rng, ['counterprop', 'counterprop', 'coprop'])})
         if rng.random() < 0.5:
             pumps = pumps[-1:]          # nothing but this pump: whatever noise it adds is not hidden by the others
+    if rng.random() < 0.5:
+        rng.shuffle(pumps)              # the pumps are a set: the order in which they are listed carries no meaning
     return {'uid': uid, 'type': 'RamanFiber', 'type_variety': 'SSMF',
             'operational': {'temperature': 283, 'raman_pumps': pumps},
             'params': {'length': length, 'loss_coef': G.pick(rng, [0.2, 0.19, 0.21]), 'length_units': 'km',
